@@ -48,7 +48,7 @@ class Obs:
             n.end_timestep = self.wrap(n.end_timestep, ("end_node", n.name))
             n.push_set = self.wrap_set(n, n.push_set)
         for a in model.arcs.values():
-            a.end_timestep = self.wrap(a.end_timestep, ("end_arc", a.name))
+            a.end_timestep = self.wrap(self.wrap_close(a, a.end_timestep), ("end_arc", a.name))
             a.send_push_request = self.wrap_req(a, a.send_push_request, False)
             a.send_pull_request = self.wrap_req(a, a.send_pull_request, True)
         model._verif_pre = self.on_pre
@@ -75,6 +75,17 @@ class Obs:
             if pull and self.cur is not None:   # a pull delivers what the arc hands back to the requester
                 self.cur["delivered"][arc.name] = self.cur["delivered"].get(arc.name, 0.0) + reply["volume"]
             return reply
+        return w
+
+    def wrap_close(self, arc, orig):
+        """water an arc hands to its out_port while it is being closed out (after the results were recorded) is
+        delivered by that arc in that timestep all the same"""
+        def w(*a, **k):
+            self.stack.append(arc)
+            try:
+                return orig(*a, **k)
+            finally:
+                self.stack.pop()
         return w
 
     def wrap_set(self, node, orig):
@@ -387,6 +398,16 @@ def run(rep, thorough):
         for a in cfg["arcs"]:          # sometimes a river reach with travel time
             if types[a["in_port"]] == "River" and types[a["out_port"]] == "River" and r.random() < 0.25:
                 a.update({"type_": "QueueArc", "number_of_timesteps": r.choice([1, 2])})
+            # ... or a travel-time arc below a catchment (whose inflow series has zero days: water falls due on a day
+            # on which nothing is pushed)
+            elif types[a["in_port"]] == "Catchment" and r.random() < 0.5:
+                a.update({"type_": "QueueArc", "number_of_timesteps": r.choice([1, 1, 2])})
+                # make sure water falls due on a silent day: a wet first day, then a dry one
+                d = next(n for n in cfg["nodes"] if n["name"] == a["in_port"])["data_input_dict"]
+                d0, d1 = cfg["dates"][0], cfg["dates"][a["number_of_timesteps"]]
+                if d[("flow", d0)] == 0:
+                    d[("flow", d0)] = type(d[("flow", d0)])(3)
+                d[("flow", d1)] = type(d[("flow", d1)])(0)
         stats["models"] += 1
         for j in range(norch):
             orch = None if j == 0 else gen_orchestration(r)
